@@ -240,13 +240,12 @@ impl<'i> RecipeCollector<'i, '_> {
             Err(err) => {
                 // ! This message (can) contains line and column number, but line numbers
                 // ! are off by one thanks to the starting `---`
-                let mut diag = error!(err.to_string());
+                // some errors have no location: point to the whole front matter then
                 let err_span = err
                     .location()
-                    .map(|loc| Span::pos(yaml_text.span().start() + loc.index()));
-                if let Some(loc) = err_span {
-                    diag = diag.label(label!(loc));
-                }
+                    .map(|loc| Span::pos(yaml_text.span().start() + loc.index()))
+                    .unwrap_or_else(|| yaml_text.span());
+                let diag = error!(err.to_string()).label(label!(err_span));
                 self.ctx.error(diag);
                 return;
             }
